@@ -1,0 +1,18 @@
+//go:build verif
+
+// Contracts for the deductive verifier in /verif (comment-only; compiled only with -tags verif).
+package htlc
+
+// Begin block: every contract queued for this height is refunded to its sender and dequeued, exactly those,
+// and the block never aborts. (UpdateTimeBasedSupplyLimits is under its own contract.)
+//@ func BeginBlocker
+//@   property C03, C13
+//@   requires height >= 0 && time >= 0
+//@   requires keeper.allSupWF && keeper.escrowInv && keeper.countersInv && keeper.allRecWF && keeper.queueInv && keeper.paramsValid
+//@   modifies bal, supply, htlcs, queue, supplies, prevTime
+//@   ensures refunded: forall i:Bytes :: old(has(queue, height, i)) ==> get(htlcs, i).State == keeper.REFUNDED && !has(queue, height, i)
+//@                     && get(htlcs, i) == keeper.closed(old(get(htlcs, i)), keeper.REFUNDED, height)
+//@   ensures untouched: forall i:Bytes :: !old(has(queue, height, i)) ==> get(htlcs, i) == old(get(htlcs, i)) && has(htlcs, i) == old(has(htlcs, i))
+//@   ensures queue_frame: forall q:Int :: forall i:Bytes :: q != height ==> has(queue, q, i) == old(has(queue, q, i))
+//@   nopanic
+//@ end
